@@ -426,3 +426,17 @@ M('C13', 'rate-rule-consumes', SB, "            rule_rxn = ([], [rulevariable], 
 M('C13', 'delay-products-dropped-in-assembly', SB, "                                            delay_type, delay_reactants, delay_products, delay_param_dict, \n", "                                            delay_type, delay_reactants, delay_reactants, delay_param_dict, \n", 'fire', 'R13.6-assembly')
 M('C13', 'new-carried-variable', SB, "        reactant_list = []\n        product_list = []\n", "        reactant_list = []\n        if reaction.getReversible():\n            product_list = []\n", 'fire', 'R13.1-no-leak/import_sbml_reactions/product_list')
 M('C13', 'silent-reset-elsewhere', SB, "        rule_rxn = None\n        rule_type = None\n        rule_formula = libsbml.formulaToL3String(rule.getMath())", "        rule_type, rule_rxn = None, None\n        rule_formula = libsbml.formulaToL3String(rule.getMath())", 'silent')
+
+# ------------------------------------------------------------------ C14
+M('C14', 'massaction-det-exponent-dropped', SB, '                ratestring += f" * {species_id}^{stoichiometry}"', '                ratestring += f" * {species_id}"', 'fire', 'R14.2-value/massaction/deterministic')
+M('C14', 'massaction-stoch-offset', SB, '                    ratestring += f" * ( {species_id} - {i} )"', '                    ratestring += f" * ( {species_id} - {i+1} )"', 'fire', 'R14.2-value/massaction/stochastic')
+M('C14', 'massaction-stoch-uses-det', SB, '        if propensity_type=="massaction" and stochastic:\n            for i in range(stoichiometry):', '        if propensity_type=="massaction" and stochastic and False:\n            for i in range(stoichiometry):', 'fire', 'R14.2-value/massaction/stochastic')
+M('C14', 'massaction-literal-symbol', SB, '    if propensity_type=="massaction":\n        propensity_annotation_dict["k"] = propensity_params[\'k\']\n        ratestring = propensity_params[\'k\']',
+  '    if propensity_type=="massaction":\n        propensity_annotation_dict["k"] = propensity_params[\'k\']\n        ratestring = "k"', 'fire', 'R14.1-identifiers/massaction')
+M('C14', 'new-hill-defect-not-masked', SB, 'ratestring+=f"/({s_species_id}^{n}+{K})"', 'ratestring+=f"/({s_species_id}^{n}+{K}+1)"', 'fire', 'R14.2-value/hillnegative')
+M('C14', 'hillneg-new-literal', SB, 'ratestring+=f"/({s_species_id}^{n}+{K})"', 'ratestring+=f"/({s_species_id}^n+{K})"', 'fire', 'R14.1-identifiers/hillnegative')
+M('C14', 'stoichiometry-constant', SB, "        stoichiometry = input_coefs[i]\n", "        stoichiometry = 1\n", 'fire', 'R14.3-stoichiometry')
+MUTANTS.append({'prop': 'C14', 'name': 'modifier-missing', 'kind': 'fire', 'expect': 'R14.4-modifiers', 'file': SB, 'occurrences': 2,
+                'old': "        if d_species_id not in reactants_list and d_species_id not in products_list:\n            modifier = reaction.createModifier()\n            modifier.setSpecies(d_species_id)\n",
+                'new': ""})
+M('C14', 'silent-massaction-spacing', SB, '                ratestring += f" * {species_id}^{stoichiometry}"', '                ratestring += f"*({species_id}^{stoichiometry})"', 'silent')
